@@ -560,6 +560,19 @@ class Oracle(object):
                 si = sim.scheduler.is_idle()
                 if bool(si) != (len(qn) == 0):
                     self.viol('C19', 'scheduler_is_idle', 'is_idle()=%s queue=%s' % (si, qn))
+                if si:
+                    # ... and by the ledger: an observation handed over to the scheduler stays queued until every task
+                    # of its workflow has executed
+                    for n_, L_ in self.ob.items():
+                        if L_['at_spawn']:
+                            done_ = {self.node_of(e_['tid']) for e_ in self.execs
+                                     if not e_['ingest'] and e_['exit'] is not None and self.obs_of(e_['tid']) == n_}
+                            left_ = set(self.v.nodes(n_)) - done_
+                            if left_ and not self.adv:
+                                self.viol('C19', 'scheduler_idle_while_workflow_in_progress',
+                                          'is_idle()=True at %s although tasks %s of %s have not run to completion' % (
+                                              now, sorted(left_)[:6], n_))
+                                break
                 ti = tel.is_idle()
                 t_true = all(v == 'FINISHED' for v in self.prev_status.values()) and tel.telescope_use == 0
                 if bool(ti) != t_true:
